@@ -36,7 +36,7 @@ def main():
         })
     man = {
         'version': 1,
-        'setup_cmd': '/venv/bin/python -c "import hypothesis" 2>/dev/null || /venv/bin/pip install --no-index --find-links /opt/veriftools/wheels hypothesis',
+        'setup_cmd': '(/venv/bin/python -c "import hypothesis" 2>/dev/null || /venv/bin/pip install --no-index --find-links /opt/veriftools/wheels hypothesis) && (PYTHONPATH=/verif/.deps /venv/bin/python -c "import atheris" 2>/dev/null || /venv/bin/pip install -q --no-index --find-links /opt/veriftools/wheels --target /verif/.deps atheris || true)',
         'hooks': {
             'guard': 'BYCYCLE_VERIF',
             'enable': 'no source hooks exist: checks import /repo\'s working tree directly (BYCYCLE_VERIF_REPO overrides the path); BYCYCLE_VERIF=1 is exported by the runner but nothing in /repo reads it',
@@ -45,7 +45,7 @@ def main():
             'add_only': True,
         },
         'engines': [{'name': 'pbt', 'path': 'pbt/run.py', 'serves_properties': sorted(CHECKS),
-                     'kind_free_text': 'Hypothesis property-based testing + exhaustive small-domain enumeration, sharded over 16 processes, bucketed failures, bounded shrinking, JSON replay files'}],
+                     'kind_free_text': 'Hypothesis property-based testing + exhaustive small-domain enumeration + atheris/libFuzzer coverage-guided parts (thorough tier of C03, C08, C17), sharded over 16 processes, bucketed failures, bounded shrinking, JSON replay files'}],
         'checks': checks,
         'not_applicable': [{'property_id': k, 'reason': v} for k, v in sorted(NOT_APPLICABLE.items())],
         'notes': 'All checks: /venv/bin/python pbt/run.py <id> [--tier quick|thorough] [--replay file]; exit 0 ok, 1 VIOLATION, 2 harness error. Known findings: known_findings.json.',
